@@ -41,6 +41,22 @@ pub proof fn lemma_path_step<T, L>(m: Map<T, Edge<T, L>>, l: L, p: T, n: nat, ac
     assert(lhs =~= rhs);
 }
 
+// the same for the labels alone
+pub proof fn lemma_labels_step<T, L>(m: Map<T, Edge<T, L>>, l: L, p: T, n: nat, acc: Seq<L>)
+    requires n > 0,
+    ensures chain_labels(m, Edge::Pred(l, p), n) + acc.reverse() == chain_labels(m, m[p], (n - 1) as nat) + acc.push(l).reverse(),
+{
+    let a2 = acc.push(l);
+    let lhs = chain_labels(m, Edge::Pred(l, p), n) + acc.reverse();
+    let rhs = chain_labels(m, m[p], (n - 1) as nat) + a2.reverse();
+    let base = chain_labels(m, m[p], (n - 1) as nat);
+    assert(chain_labels(m, Edge::Pred(l, p), n) == base.push(l));
+    assert(a2.reverse().len() == acc.len() + 1);
+    assert(a2.reverse()[0] == l);
+    assert forall|i: int| 0 <= i < acc.len() implies a2.reverse()[i + 1] == acc.reverse()[i] by {}
+    assert(lhs =~= rhs);
+}
+
 pub proof fn lemma_reverse_twice<A>(s: Seq<A>)
     ensures s.reverse().reverse() == s,
 {
